@@ -1,7 +1,7 @@
 CONSTANTS
   FlagSets <- QuickFlags
-  Widths = {"", "0", "1", "2", "7", "12", "33", "70", "*", "*-"}
-  Precs = {"", ".0", ".1", ".3", ".12", ".33", ".70", ".*"}
+  Widths = {"", "1", "2", "7", "9", "12", "19", "33", "70", "90", "*", "*-"}
+  Precs = {"", ".0", ".1", ".3", ".9", ".12", ".19", ".33", ".70", ".*"}
   Lens = {"", "hh", "h", "l", "ll", "z", "t", "j"}
   Convs = {"d", "i", "u", "o", "x", "X", "s", "c", "p"}
   Vals = {0, 1, 2, 3, 4}
